@@ -68,6 +68,8 @@ def run(ctx):
     guard = [n for n in mn.node.body if isinstance(n, ast.If) and norm(n.test) == "self.min_max or self.finest_lv"]
     ctx.check(ok and len(guard) == 1, f"{P}.WIRING", mn.site, "min/max modes open the full reader with maxmins=True",
               "the min/max modes do not open the reader with maxmins=True", key="maxmins")
+    # the tables menu reduces are the reader's per-box tables: anchor their parser (generic lints sweep it)
+    prog.func(PC, "PlotfileCooker.read_cell_headers", P)
     # find_min_max
     fm = prog.func(ME, "Menu.find_min_max", P)
     # reducer <-> table pairing, decided on the reducer calls themselves (wherever their results are named)
